@@ -10,6 +10,7 @@ use crate::rxalpha::mgr_std;
 use crate::sender::*;
 use crate::tx::*;
 use dvb_gse_rust::crc::DefaultCrc;
+use dvb_gse_rust::gse_encap::Encapsulator;
 use dvb_gse_rust::gse_decap::{GetLabelorFragIdError, LabelorFragId};
 use rayon::prelude::*;
 use serde_json::json;
@@ -178,6 +179,91 @@ fn check(rep: &Report, acc: &mut Acc, it: &Item, rank: u64) {
     }
 }
 
+/// One sender call of the history alphabet: (label, through encap_ext?, as a first fragment?)
+type HOp = (Lbl, bool, bool);
+
+/// Every history of at most `depth` sender calls over {label A, label B (3 bytes), broadcast} x {encap, encap_ext} x
+/// {complete, first fragment} on ONE encapsulator (re-use enabled), with a receiver in lock-step: each packet is
+/// peeked, then decapsulated; a packet whose label was replaced must be answered with the re-use error by peek and be
+/// associated by decap with the label that was replaced; a packet with a full label must peek and decap to that label.
+fn histories(rep: &Report, tier: Tier) {
+    let labels = [L6A, L3B, Lbl::Bcast];
+    let alphabet: Vec<HOp> = labels.iter().flat_map(|&l| [(l, false, false), (l, true, false), (l, false, true), (l, true, true)]).collect();
+    let depth = if tier.thorough() { 4 } else { 3 };
+    let mut hists: Vec<Vec<HOp>> = vec![vec![]];
+    let mut all: Vec<Vec<HOp>> = vec![];
+    for _ in 0..depth {
+        hists = hists.iter().flat_map(|h| alphabet.iter().map(move |&o| { let mut v = h.clone(); v.push(o); v })).collect();
+        all.extend(hists.iter().cloned());
+    }
+    let n_h = all.len();
+    all.par_iter().for_each(|h| {
+        let mut acc = Acc::default();
+        for tail in [vec![], vec![0xC0u8, 0x05, 0x08, 0x00, 0x31, 0x32, 0x33]] {
+            let mut enc = Encapsulator::new(DefaultCrc {});
+            let mut rx = RxS::new(4, 64, &[64, 64, 64, 64, 64, 64]).build(DefaultCrc {}, mgr_std());
+            let mut fed: Vec<String> = vec![];
+            let mut steps: Vec<String> = vec![];
+            for (k, &(l, ext, frag)) in h.iter().enumerate() {
+                let pd = pdu(12, k as u8);
+                let mut buf = vec![0u8; if frag { 2 + 3 + l.wire_len() + 2 + 4 } else { 64 }];
+                let out = if ext { do_encap_ext(&mut enc, &pd, k as u8, 0x0800, l, &mut buf, &[(0x0101, vec![])]) } else { do_encap(&mut enc, &pd, k as u8, 0x0800, l, &mut buf) };
+                steps.push(format!("{}(label={}, frag_id={}, buffer={}) -> {:?}", if ext { "encap_ext" } else { "encap" }, l.short(), k, buf.len(), out));
+                let Some(n) = out.len() else { break };
+                let n = n.min(buf.len());
+                let mut input = buf[..n].to_vec();
+                input.extend_from_slice(&tail);
+                let pk = match catch(|| rx.get_label_or_frag_id(&input)) {
+                    Err(pn) => Peek::Panic(pn.0),
+                    Ok(Ok(LabelorFragId::Lbl(x))) => Peek::Lbl(Lbl::from_label(x)),
+                    Ok(Ok(LabelorFragId::FragId(f))) => Peek::FragId(f),
+                    Ok(Err(e)) => Peek::Err(format!("{:?}", e)),
+                };
+                let d = do_decap(&mut rx, &input);
+                fed.push(hex(&input));
+                acc.states += 1;
+                acc.transitions += 2;
+                acc.calls += 3;
+                acc.compared += 1;
+                let replaced = n >= 1 && (buf[0] >> 4) & 3 == 3 && l != Lbl::ReUse;
+                acc.outcome(&format!("history:{}:{}:{}", if replaced { "replaced" } else { "full" }, out.class(), d.class()));
+                let dlabel = match &d {
+                    DecapOut::Completed { meta, .. } | DecapOut::Fragmented { meta, .. } => Some(meta.label),
+                    _ => None,
+                };
+                let last = k + 1 == h.len();
+                if let DecapOut::Completed { buf, .. } = d.clone() {
+                    let _ = rx.provision_storage(buf.into_boxed_slice());
+                }
+                if !last {
+                    continue; // judged as the last packet of the shorter history
+                }
+                let wit = || json!({"packets": fed, "history": steps, "peek": format!("{:?}", pk), "decap": d.brief(), "label_passed": l.short()});
+                let kind = if frag { "first" } else { "complete" };
+                let tk = if tail.is_empty() { "alone" } else { "followed" };
+                let rank = h.len() as u64;
+                if replaced {
+                    if pk != Peek::Err("ErrLabelReuse".into()) {
+                        rep.violation(&format!("C19|history|replaced-label-peek|{}|{}", kind, tk), rank, || (format!("after {:?}: the label {} was replaced by re-use but peek returns {:?}", &steps[..k], l.short(), pk), wit()));
+                    }
+                    if dlabel != Some(l) {
+                        rep.violation(&format!("C19|history|replaced-label-decap|{}|{}", kind, d.class()), rank, || (format!("history {:?}: the label {} of the last packet was replaced by re-use; peek {:?}; the receiver that saw every packet associates {:?} with it ({})", steps, l.short(), pk, dlabel.map(|x| x.short()), d.brief()), wit()));
+                    }
+                } else {
+                    if pk != Peek::Lbl(l) {
+                        rep.violation(&format!("C19|history|full-label-peek|{}|{}", kind, tk), rank, || (format!("history {:?}: peek returns {:?} for a packet carrying label {}", steps, pk, l.short()), wit()));
+                    }
+                    if dlabel != Some(l) {
+                        rep.violation(&format!("C19|history|full-label-decap|{}|{}", kind, d.class()), rank, || (format!("history {:?}: peek {:?}, decap associates {:?} ({})", steps, pk, dlabel.map(|x| x.short()), d.brief()), wit()));
+                    }
+                }
+            }
+        }
+        rep.merge(acc);
+    });
+    rep.part(json!({"part":"sender histories with a receiver in lock-step","alphabet":"{6-byte label A, 3-byte label B, broadcast} x {encap, encap_ext with one optional extension} x {complete packet, first fragment}","depth":depth,"histories":n_h,"each":"alone and followed by further bytes"}));
+}
+
 pub fn run(tier: Tier) -> i32 {
     let rep = Report::new("C19", tier);
     rep.set_rule("corpus = every packet the real encapsulator produces in the small regimes: encap over PDU lengths 0..=32 x buffers 0..=56 (thorough 0..=96 x 0..=128) and PDU lengths around the 4095 limit x buffers 4090..=70000 (with their continuation packets) x labels {6B, 3B, the all-zero 3B label, broadcast, explicit re-use} x prior {fresh, same label (substitution)} x fragment ids (all 256 for PDU length <= 2, else 3), encap_frag over every position and buffer for PDU lengths 0..=20 (thorough 0..=48) x all 256 ids (for small cells), encap_ext over all chains of length <= 2 (thorough 3) x labels x buffers; each packet alone and followed by 6 tails; peek and decap run on the same receiver (context primed for continuation packets); distinct = (kind, label type, peek result)");
@@ -307,6 +393,7 @@ pub fn run(tier: Tier) -> i32 {
         rep.merge(acc);
     });
     rep.part(json!({"part":"encap_ext packets","chains":ch.len()}));
+    histories(&rep, tier);
     rep.sample(1, || json!({"example": "encap(pdu_len=3, label=6B, buffer=13) -> first fragment; peek Lbl(6B) == decap metadata label", "tails": tails().iter().map(|t| hex(t)).collect::<Vec<_>>()}));
     rep.finish(true)
 }
